@@ -98,6 +98,8 @@ impl AlignOpts {
 #[derive(Clone, Debug, Serialize, Deserialize, PartialEq)]
 pub enum SchedCmd {
     Build { list: bool },
+    /// build from paired FASTQ files: `min_count` is a number or "auto"
+    BuildFastq { min_count: String, min_qual: u8, qual_filter: String },
     AlignSkf(AlignOpts),
     AlignSeq(AlignOpts),
     MapSkf { vcf: bool, ambig_mask: bool, repeat_mask: bool },
@@ -110,6 +112,7 @@ impl SchedCmd {
         match self {
             SchedCmd::Build { list: false } => "build",
             SchedCmd::Build { list: true } => "build-list",
+            SchedCmd::BuildFastq { .. } => "build-fastq",
             SchedCmd::AlignSkf(_) => "align-skf",
             SchedCmd::AlignSeq(_) => "align-seq",
             SchedCmd::MapSkf { vcf: false, .. } => "map-skf-aln",
@@ -131,6 +134,9 @@ impl SchedCmd {
 
 #[derive(Clone, Debug, Serialize, Deserialize, PartialEq)]
 pub struct SchedCase {
+    /// paired read files per sample (forward, reverse) for builds from FASTQ
+    #[serde(default, skip_serializing_if = "Option::is_none")]
+    pub fastq: Option<Vec<(String, String)>>,
     /// sample names written into the `-f` list file when they differ from the file stems (used to
     /// give two samples the same name, which ska allows)
     #[serde(default, skip_serializing_if = "Option::is_none")]
@@ -297,7 +303,7 @@ impl Workload for SchedWorkload {
         let kinds: Vec<&'static str> = match &self.only {
             Some(v) => v.clone(),
             None => vec![
-                "build", "build", "build-list", "align-skf", "align-seq", "map-skf", "map-skf", "map-seq",
+                "build", "build", "build-list", "build-fastq", "align-skf", "align-seq", "map-skf", "map-skf", "map-seq",
                 "map-seq", "distance", "distance", "lo", "lo", "lo-ref", "lo-ref",
             ],
         };
@@ -305,6 +311,35 @@ impl Workload for SchedWorkload {
         let nvar = if tier == Tier::Quick { rng.range(4, 6) } else { rng.range(6, 10) };
         let base = Sim::plain(rng.next_u64() >> 1);
         match kind {
+            "build-fastq" => {
+                let k = *rng.pick(&[15usize, 17, 21, 31, 33]);
+                let n = rng.range(2, 3);
+                let mut o = GenomeOpts::plain(rng.range(300, 600));
+                o.snp_sites = 5;
+                let samples = gen_samples(&mut rng, n, k, &o, "r");
+                let fastq = samples
+                    .iter()
+                    .map(|s| {
+                        let g: Vec<u8> = s.records.iter().flat_map(|r| r.1.clone()).collect();
+                        crate::gen::simulate_reads(&mut rng, &g, 25, 70)
+                    })
+                    .collect();
+                SchedCase {
+                    fastq: Some(fastq),
+                    list_names: None,
+                    k,
+                    single_strand: false,
+                    samples,
+                    reference: None,
+                    cmd: SchedCmd::BuildFastq {
+                        min_count: ["auto", "auto", "2", "3", "5"][rng.below(5)].to_string(),
+                        min_qual: [0u8, 10, 20][rng.below(3)],
+                        qual_filter: ["no-filter", "middle", "strict"][rng.below(3)].to_string(),
+                    },
+                    base,
+                    variants: Self::gen_variants(&mut rng, 3, 8),
+                }
+            }
             "build" | "build-list" => {
                 let k = crate::gen::pick_k(&mut rng);
                 // both sides of the 10-samples-per-thread rule at depth 1 and 2
@@ -333,6 +368,7 @@ impl Workload for SchedWorkload {
                     None
                 };
                 SchedCase {
+                    fastq: None,
                     list_names,
                     k,
                     single_strand: rng.chance(30),
@@ -382,6 +418,7 @@ impl Workload for SchedWorkload {
                 };
                 let is_map = kind.starts_with("map");
                 SchedCase {
+                    fastq: None,
                     list_names: None,
                     k,
                     single_strand: !seq_input && rng.chance(30),
@@ -413,6 +450,7 @@ impl Workload for SchedWorkload {
                 r.records = vec![("chr".into(), joined)];
                 r.name = "ref".into();
                 SchedCase {
+                    fastq: None,
                     list_names: None,
                     k,
                     // lo accepts single-strand files too (a k-mer and its reverse complement can then
@@ -441,6 +479,15 @@ impl Workload for SchedWorkload {
         }
         if let Some(r) = &c.reference {
             dir.write(&r.file(), r.fasta().as_bytes());
+        }
+        if let Some(fq) = &c.fastq {
+            let mut l = String::new();
+            for (s, (f, r)) in c.samples.iter().zip(fq.iter()) {
+                dir.write(&format!("{}_1.fastq", s.name), f.as_bytes());
+                dir.write(&format!("{}_2.fastq", s.name), r.as_bytes());
+                l.push_str(&format!("{}\t{}_1.fastq\t{}_2.fastq\n", s.name, s.name, s.name));
+            }
+            dir.write("reads.txt", l.as_bytes());
         }
         let files: Vec<String> = c.samples.iter().map(|s| s.file()).collect();
         let list: String = c
@@ -479,6 +526,12 @@ impl Workload for SchedWorkload {
             let t = vec!["--threads".to_string(), threads.to_string()];
             match &c.cmd {
                 SchedCmd::Build { list } => build_args(&format!("out_{tag}"), threads, *list),
+                SchedCmd::BuildFastq { min_count, min_qual, qual_filter } => {
+                    let mut a = vec!["build".to_string(), "-o".into(), format!("out_{tag}"), "-k".into(), c.k.to_string(), "-f".into(), "reads.txt".into()];
+                    a.extend(["--min-count".to_string(), min_count.clone(), "--min-qual".into(), min_qual.to_string(), "--qual-filter".into(), qual_filter.clone()]);
+                    a.extend(t);
+                    a
+                }
                 SchedCmd::AlignSkf(o) => {
                     let mut a = vec!["align".to_string(), "in.skf".into()];
                     a.extend(o.args());
@@ -534,7 +587,7 @@ impl Workload for SchedWorkload {
         let observe = |tag: &str, r: &ProcOut| -> Result<BTreeMap<String, Vec<u8>>, String> {
             let mut m = BTreeMap::new();
             match &c.cmd {
-                SchedCmd::Build { .. } => {
+                SchedCmd::Build { .. } | SchedCmd::BuildFastq { .. } => {
                     let i = inspect(&dir.p(&format!("out_{tag}.skf")))?;
                     if i.duplicate_kmers > 0 || i.all_gap_rows > 0 {
                         return Err(format!("malformed table: {} duplicate k-mers, {} empty rows", i.duplicate_kmers, i.all_gap_rows));
